@@ -182,6 +182,16 @@ func RefDial(conn net.Conn, br ref.Bridge, rng *rand.Rand, padLen int, hour stri
 // reads until a complete valid client hello is present, answers with the
 // response and the unpadded seed frame in one write.
 func RefAccept(conn net.Conn, b Bridge, rng *rand.Rand, padLen int) (*RefConn, *ref.ParsedHello, []byte, error) {
+	return refAccept(conn, b, rng, padLen, nil)
+}
+
+// RefAcceptForged is RefAccept by a peer that knows only the public bridge
+// line: it uses e2 in place of EXP(X,b) (b.Ref.Priv is not used).
+func RefAcceptForged(conn net.Conn, b Bridge, rng *rand.Rand, padLen int, e2 [32]byte) (*RefConn, *ref.ParsedHello, []byte, error) {
+	return refAccept(conn, b, rng, padLen, &e2)
+}
+
+func refAccept(conn net.Conn, b Bridge, rng *rand.Rand, padLen int, forgedE2 *[32]byte) (*RefConn, *ref.ParsedHello, []byte, error) {
 	rr := RandReader{rng}
 	var blob []byte
 	buf := make([]byte, 8192)
@@ -209,9 +219,15 @@ func RefAccept(conn net.Conn, b Bridge, rng *rand.Rand, padLen int) (*RefConn, *
 	}
 	pad := make([]byte, padLen)
 	io.ReadFull(rr, pad)
-	resp, sess, err := ref.BuildServerResponse(b.Ref, key, ph.Repr, pad, ph.Hour)
-	if err != nil {
-		return nil, ph, blob, err
+	var resp []byte
+	var sess *ref.Session
+	if forgedE2 != nil {
+		resp, sess = ref.BuildServerResponseForged(b.Ref, key, ph.Repr, pad, ph.Hour, *forgedE2)
+	} else {
+		var err error
+		if resp, sess, err = ref.BuildServerResponse(b.Ref, key, ph.Repr, pad, ph.Hour); err != nil {
+			return nil, ph, blob, err
+		}
 	}
 	rc := &RefConn{Conn: conn, Enc: ref.NewEncoder(sess.S2C), Dec: ref.NewDecoder(sess.C2S), Sess: sess}
 	out := append(resp, rc.Enc.Frame(ref.Packet(ref.PacketPrngSeed, b.Seed[:], 0))...)
